@@ -65,12 +65,15 @@ def run(chk, scratch):
         wseed = chk.seed * 10 + wi
         d = os.path.join(scratch, "w%d" % wi)
         w = world2.rich_world(wseed, zoo=world2.ZOO_ALL)
+        if (wseed // 10 + wseed % 10) % 2 == 1:
+            # sequence names with dots (RefSeq / scaffold style)
+            world2.rename_chroms(w, {c: ("NC_00007%d.6", "GL45621%d.1", "KI27072%d.1")[i % 3] % i for i, c in enumerate(w.chrom_order)})
         # part of the reference carries IsoQuant-style ids (an extended annotation of an earlier run fed back as reference):
         # the numbers reserved on one chromosome must not influence the ids given out on another one
         id_map = {}
         n = 0
         for g in w.genes:
-            if g.chrom in ("chr1", "chr3") and g.transcripts:
+            if g.chrom in (w.chrom_order[0], w.chrom_order[2]) and g.transcripts:
                 n += 1
                 id_map[g.id] = "novel_gene_%s_%d" % (g.chrom, n)
                 for t in g.transcripts:
